@@ -229,15 +229,29 @@ pub fn check(t: &mut Tape, case_no: u64) -> Out {
     for (i, g) in gens.iter().enumerate() {
         let _ = std::fs::write(dir.join(format!("f{i}.feature")), &g.text);
     }
-    let out = check_dir(&dir, &gens);
+    // the three ways `parser::Basic` can be pointed at feature files
+    let mode = t.pick(3);
+    let out = check_dir(&dir, &gens, mode);
     let _ = std::fs::remove_dir_all(&dir);
     out
 }
 
-fn check_dir(dir: &Path, gens: &[Gen]) -> Out {
+/// `mode`: 0 = directory given as the input path, 1 = `--input <dir>/*.feature` glob on the command
+/// line, 2 = every file given as the input path on its own.
+fn check_dir(dir: &Path, gens: &[Gen], mode: usize) -> Out {
     let mut viol = vec![];
-    let mut labels = vec![];
-    let items: Vec<parser::Result<gherkin::Feature>> = block_on(parser::Basic::new().parse(dir, parser::basic::Cli::default()).collect());
+    let mut labels = vec![["input_directory", "input_cli_glob", "input_single_files"][mode]];
+    let items: Vec<parser::Result<gherkin::Feature>> = match mode {
+        0 => block_on(parser::Basic::new().parse(dir, parser::basic::Cli::default()).collect()),
+        1 => {
+            let glob = format!("{}/*.feature", dir.display());
+            match glob.parse::<parser::basic::Walker>() {
+                Ok(w) => block_on(parser::Basic::new().parse(dir, parser::basic::Cli { features: Some(w) }).collect()),
+                Err(e) => return Out { violations: vec![], nontrivial: false, labels: vec![], sample: json!(null), harness_error: Some(format!("glob {glob} rejected: {e}")) },
+            }
+        }
+        _ => (0..gens.len()).flat_map(|i| block_on(parser::Basic::new().parse(dir.join(format!("f{i}.feature")), parser::basic::Cli::default()).collect::<Vec<_>>())).collect(),
+    };
     let mut herr = None;
     if items.len() != gens.len() {
         viol.push(v("file-count", format!("{} files written, parser returned {} items", gens.len(), items.len())));
